@@ -11,23 +11,22 @@ def tasks(tier, seed):
     ts += SCH.sched_tasks(tier, ['CHECK_C01', 'CHECK_C04', 'CHECK_C05'], 'sched_exact', ('C01:', 'C04:', 'C05:'), kinds, digest=True,
                           extra_defs='#define CONTAINER_DIVIDES_PAYLOAD 2\n')
 
-    def post(res):
-        # the finished file must be the same term-for-term under every explored schedule of one configuration
-        groups = {}
-        for tid, r in res.items():
-            cfg = tid.rsplit('.sync', 1)[0]
-            for d, sched in r.get('out_digests', []):
-                if 'file' in d:
-                    groups.setdefault(cfg, []).append((d['file'], tid, sched))
-        out = []
-        for cfg, lst in groups.items():
-            ref = lst[0][0]
-            for dg, tid, sched in lst:
-                if dg != ref:
-                    out.append((tid, dict(kind='schedule_dependent', msg='the bytes of the written file differ between two schedules of the same session (%s)' % cfg,
-                                          where='post', extra=dict(schedule=sched), inputs=[])))
-                    break
-        return out
+    # back-pressure thresholds scaled down (2 queued objects, one container + 80 bytes): the workers wait for each other at
+    # container boundaries inside fields, which the 128 KiB default never produces on a small file
+    ts += SCH.sched_tasks(tier, ['CHECK_C01', 'CHECK_C04', 'CHECK_C05'], 'sched_scaled', ('C01:', 'C04:', 'C05:'), kinds, digest=True,
+                          extra_defs='#define SCALE_THRESHOLDS 1\n', nobj=3)
+    # stream buffer of 16 bytes and tiny containers, cooperative schedule: the decoder catches up with the inflater at
+    # container boundaries inside fields (every alignment of boundary and field end occurs)
+    import session_common as SC2
+    for cs in ((5, 7, 11, 13) if tier == 'quick' else (3, 5, 6, 7, 9, 11, 13, 17, 23)):
+        for t in SC2.session_tasks('quick', ['CHECK_C01', 'CHECK_C04', 'CHECK_C05'], 'coop_c%d' % cs, ('C01:', 'C04:', 'C05:'), nobj=6, scaled=True)[:1]:
+            t.text = t.text.replace('#define CFG_CONTAINER 40', '#define CFG_CONTAINER %d\n#define SCALED_BUFFER 16' % cs)
+            t.tid = 'coop_scaled.c%d' % cs
+            t.desc = 'cooperative schedule, 6 objects, container size %d, stream buffer 16 bytes, queue capacity 2: ' % cs + t.desc
+            t.opts = dict(t.opts, digest_tags=())
+            ts.append(t)
+
+    post = SCH.digest_post
     meta = dict(
         level='model_checking',
         explanation='Every schedule with at most one preemption (at each mutex release / thread start, in favour of each other '
